@@ -19,7 +19,7 @@ MANIFEST = dict(
          "that to all histories. Finding D7 is proved as a theorem about the shipped table (teardown delivered while facade is None) and "
          "reproduced on the real manager. Tie: translator + differential correspondence with the REAL GeckoAsyncSpaMan (locator.discover, "
          "GeckoAsyncSpa._connect, async_get_watercare and the facade constructor scripted) on the virtual loop, including calls parked at any "
-         "delivery/await while other calls run; direct monitors on the real manager. Session 4: every error scenario x reset origin is run on the real stack with a suspending client handler and the reset must land in IDLE; the guard `self._spa is not None` is part of the translated vocabulary (.spaSome). The order inside GeckoAsyncSpa.disconnect() is a theorem over its regenerated suspension skeleton (disconnect_order: announced before the spa cancels its own tasks, nothing suspends between that cancellation and the last clean-up step). every_started_phase_is_closed: over the regenerated skeletons, the FINISHED announcement is awaited on every exit of the locate / connect phase, cancellation at any await included (resource monitor, sound by releasedOnEveryExit_sound).",
+         "delivery/await while other calls run; direct monitors on the real manager. Session 4: every error scenario x reset origin is run on the real stack with a suspending client handler and the reset must land in IDLE; the guard `self._spa is not None` is part of the translated vocabulary (.spaSome). The order inside GeckoAsyncSpa.disconnect() is a theorem over its regenerated suspension skeleton (disconnect_order: announced before the spa cancels its own tasks, nothing suspends between that cancellation and the last clean-up step). every_started_phase_is_closed: over the regenerated skeletons, the FINISHED announcement is awaited on every exit of the locate / connect phase, cancellation at any await included (resource monitor, sound by releasedOnEveryExit_sound). A reset from another task while the sequence pump is suspended in the client`s facade-ready handler: phases closed, manager reconnects.",
     note="Trusted: Lean kernel, translator (an unknown statement refuses), correspondence harness. The content of locate/connect is abstracted to its "
          "event sequence (C01/C06/C15). Theorems other than the delivery/status one are about calls that are not interleaved; interleavings are "
          "covered by correspondence + search to bounded depth. Locate/connect are assumed to be issued as the sequence pump does (one at a time, "
@@ -673,6 +673,60 @@ EXPECT = {"teardown-without-facade": "every CLIENT_FACADE_TEARDOWN is delivered 
           "implementation-broke-the-rig": "the manager can be driven through its public calls"}
 
 
+def explore_reset_in_ready_handler():
+    """REAL stack: the sequence pump is suspended inside the client's handler of CLIENT_FACADE_IS_READY (delivered while the
+    connect phase is being closed) when a reset arrives from ANOTHER task (a Reconnect press); the handler is then released.
+    Every started phase must still be closed by its finished event, and the manager must go on to connect again."""
+    import fakenet
+    from geckolib import GeckoAsyncSpaMan
+    from props import c10
+    res = {"events": []}
+
+    async def body(loop):
+        gate = asyncio.Event()
+        held = {"n": 0}
+
+        class Man(GeckoAsyncSpaMan):
+            async def handle_event(self, event, **kw):
+                name = str(event).split(".")[-1]
+                res["events"].append(name)
+                if name == "CLIENT_FACADE_IS_READY" and held["n"] == 0:
+                    held["n"] = 1
+                    await gate.wait()
+        sim = fakenet.make_sim(c10.SNAP)
+        net = fakenet.Network(loop, sim, phases=[], seed=1)
+        loop.network = net
+        m = Man("uuid-1", spa_identifier=c10.IDENT, spa_address="10.0.0.9", spa_name="Spa")
+        await m.__aenter__()
+        pump = [t for t in asyncio.all_tasks() if t.get_name() == "SPAMAN:Sequence Pump"][0]
+        for _ in range(400):
+            await asyncio.sleep(0.05)
+            if held["n"]:
+                break
+        res["held"] = bool(held["n"])
+        r = asyncio.ensure_future(m.async_reset())
+        await asyncio.sleep(0.5)
+        gate.set()
+        try:
+            await asyncio.wait_for(r, 20)
+            res["reset"] = "returned"
+        except Exception as e:  # noqa
+            res["reset"] = f"{type(e).__name__}"
+        for _ in range(800):
+            await asyncio.sleep(0.05)
+            if m.facade is not None and str(m.spa_state).endswith("CONNECTED"):
+                break
+        res["pump_alive"] = not pump.done()
+        res["final"] = str(m.spa_state).split(".")[-1]
+        res["facade"] = m.facade is not None
+        await m.__aexit__(None, None, None)
+    vloop.run_virtual(body, stable=True)
+    ev = res["events"]
+    res["brackets"] = {"LOCATING": (ev.count("LOCATING_STARTED"), ev.count("LOCATING_FINISHED")),
+                       "CONNECTION": (ev.count("CONNECTION_STARTED"), ev.count("CONNECTION_FINISHED"))}
+    return res
+
+
 def run(ctx):
     st = translate.run(["LifecycleEnums", "LifecycleTable", "LifecycleReach", "Skeletons"])
     ctx.cov["translator"] = st
@@ -771,6 +825,20 @@ def run(ctx):
     except Exception as e:  # noqa
         ctx.obligation_broken("harness:real-stack-resets", f"{type(e).__name__}: {e}")
 
+    # ---- D2: a reset from another task while the pump is suspended in the client's facade-ready handler (real stack)
+    try:
+        rr = explore_reset_in_ready_handler()
+        ctx.count("evaluations")
+        ctx.cov["reset_in_ready_handler"] = {k: rr.get(k) for k in ("held", "reset", "pump_alive", "final", "facade", "brackets")}
+        bad = [k for k, (a, b) in rr["brackets"].items() if a != b]
+        if rr.get("held") and (bad or not rr["pump_alive"] or rr["final"] != "CONNECTED" or not rr["facade"]):
+            ctx.violation("phase-not-closed:real-stack:reset-in-ready-handler" if bad else "no-reconnect:real-stack:reset-in-ready-handler",
+                          {"kind": "reset-in-ready-handler"},
+                          "every started locate / connect phase is closed by its finished event, and the manager connects again after the reset",
+                          {"started_vs_finished": rr["brackets"], "pump_alive": rr["pump_alive"], "final_state": rr["final"], "facade": rr["facade"]})
+    except Exception as e:  # noqa
+        ctx.obligation_broken("harness:reset-in-ready-handler", f"{type(e).__name__}: {e}")
+
     # ---- correspondence with the Lean model
     try:
         model = Driver("Driver/C08.lean").run(all_lines)
@@ -815,6 +883,10 @@ def run(ctx):
 
 
 def replay(inp):
+    if inp.get("kind") == "reset-in-ready-handler":
+        rr = explore_reset_in_ready_handler()
+        bad = [k for k, (a, b) in rr["brackets"].items() if a != b]
+        return bool(bad or not rr["pump_alive"] or rr["final"] != "CONNECTED"), {k: rr.get(k) for k in ("brackets", "pump_alive", "final")}
     if inp.get("kind") == "real-stack-reset":
         from props import c10
         e = c10.explore_error(inp["scenario"], inp["origin"], True)
